@@ -76,10 +76,11 @@ class MFDeviceSet(DeviceSet):
     shape = self.shape
     flat_shape = shape[0]*shape[1]
     for constraint in device_constraints:
-      constraint['fun'] = lambda s, f=constraint['fun']: f(s.reshape(shape).sum(axis=0))
+      c = dict(constraint)
+      c['fun'] = lambda s, f=constraint['fun']: f(s.reshape(shape).sum(axis=0))
       if 'jac' in constraint:
-        constraint['jac'] = lambda s, f=constraint['jac']: np.tile(np.array(f(s.reshape(shape).sum(axis=0))).reshape(-1), shape[0]).reshape(flat_shape)
-      constraints += [constraint]
+        c['jac'] = lambda s, f=constraint['jac']: np.tile(np.array(f(s.reshape(shape).sum(axis=0))).reshape(-1), shape[0]).reshape(flat_shape)
+      constraints += [c]
     return constraints
 
   def project(self, s):
